@@ -1,3 +1,148 @@
-// harness child module of src/mqtt/packet/topic_alias_send.rs
+// Child module of src/mqtt/packet/topic_alias_send.rs
+// C13 kernel: the sender-side alias table against an independent model of the receiver's table
+// (alias -> topic, as a spec-conformant receiver would build it from the same insertions) and of
+// least-recently-used order. Histories of 3 symbolic operations from new(max), max <= 3.
 #[allow(unused_imports)]
 use super::*;
+
+const TOPICS: [&str; 3] = ["a", "b", "c"];
+
+struct Model {
+    // r[alias] = topic index + 1, 0 = unbound   (index 0 unused)
+    r: [u8; 4],
+    // LRU order: aliases from least to most recently used, n entries
+    order: [u16; 3],
+    n: usize,
+    max: u16,
+}
+impl Model {
+    fn touch(&mut self, a: u16) {
+        // move a to the most-recent end (insert if absent)
+        let mut i = 0;
+        let mut found = false;
+        let mut w = 0;
+        let old = self.order;
+        while i < self.n {
+            if old[i] == a {
+                found = true;
+            } else {
+                self.order[w] = old[i];
+                w += 1;
+            }
+            i += 1;
+        }
+        self.order[w] = a;
+        if !found {
+            self.n += 1;
+        }
+    }
+    fn first_vacant(&self) -> Option<u16> {
+        let mut a = 1;
+        while a <= self.max {
+            if self.r[a as usize] == 0 {
+                return Some(a);
+            }
+            a += 1;
+        }
+        None
+    }
+}
+
+fn check_against_model(s: &TopicAliasSend, m: &Model) {
+    // every alias resolves to the topic the receiver holds for it
+    let mut a: u16 = 0;
+    while a <= 4 {
+        let got = s.peek(a);
+        if a >= 1 && a <= m.max && m.r[a as usize] != 0 {
+            assert!(got == Some(TOPICS[(m.r[a as usize] - 1) as usize]), "[C13] an alias resolves to the topic last sent with it");
+            assert!(s.value_allocator.is_used(a), "[C13] a bound alias is marked used");
+        } else {
+            assert!(got.is_none(), "[C13] an alias never sent with a topic resolves to nothing");
+            if a >= 1 && a <= m.max {
+                assert!(!s.value_allocator.is_used(a), "[C13] an unbound alias is vacant");
+            }
+        }
+        a += 1;
+    }
+    // find_by_topic returns an alias that the receiver resolves to that very topic
+    let mut t = 0;
+    while t < 3 {
+        let f = s.find_by_topic(TOPICS[t]);
+        let mut bound = false;
+        let mut a = 1;
+        while a <= m.max {
+            if m.r[a as usize] == (t as u8 + 1) {
+                bound = true;
+            }
+            a += 1;
+        }
+        match f {
+            Some(al) => {
+                assert!(al >= 1 && al <= m.max && m.r[al as usize] == (t as u8 + 1), "[C13] automatic mapping only uses an alias currently bound to that topic");
+            }
+            None => assert!(!bound, "[C13] a bound topic is found"),
+        }
+        t += 1;
+    }
+    // LRU victim: a vacant alias if any (smallest), otherwise the least recently used
+    let v = s.get_lru_alias();
+    match m.first_vacant() {
+        Some(x) => assert!(v == x, "[C13] a vacant alias is preferred (smallest first)"),
+        None => assert!(v == m.order[0], "[C13] eviction picks the least recently used alias"),
+    }
+}
+
+#[kani::proof]
+#[kani::unwind(6)]
+fn c13_alias_send_hist3() {
+    let max: u16 = kani::any();
+    kani::assume(max >= 1 && max <= 3);
+    let mut s = TopicAliasSend::new(max);
+    let mut m = Model { r: [0; 4], order: [0; 3], n: 0, max };
+    let mut step = 0;
+    while step < 3 {
+        let op: u8 = kani::any();
+        kani::assume(op <= 1);
+        let a: u16 = kani::any();
+        if op == 0 {
+            // a PUBLISH carrying (topic, alias) is sent: binds on both sides
+            let t: usize = kani::any();
+            kani::assume(t < 3 && a >= 1 && a <= max);
+            s.insert_or_update(TOPICS[t], a);
+            m.r[a as usize] = t as u8 + 1;
+            m.touch(a);
+        } else {
+            // a PUBLISH with empty topic and alias a is validated: LRU refreshed when bound
+            kani::assume(a <= 4);
+            let got = s.get(a).is_some();
+            let bound = a >= 1 && a <= max && m.r[a as usize] != 0;
+            assert!(got == bound, "[C13] an empty-topic PUBLISH is only accepted with a bound alias in 1..=max");
+            if bound {
+                m.touch(a);
+            }
+        }
+        step += 1;
+    }
+    kani::cover!(m.n == 3, "table full");
+    kani::cover!(m.n == 1, "one binding");
+    check_against_model(&s, &m);
+    core::mem::forget(s);
+}
+
+// clear() forgets everything (used when bindings must not survive)
+#[kani::proof]
+#[kani::unwind(6)]
+fn c13_alias_send_clear() {
+    let max: u16 = kani::any();
+    kani::assume(max >= 1);
+    let mut s = TopicAliasSend::new(max);
+    let a: u16 = kani::any();
+    kani::assume(a >= 1 && a <= max);
+    s.insert_or_update("a", a);
+    assert!(s.peek(a) == Some("a") && s.find_by_topic("a") == Some(a), "[C13] binding recorded");
+    s.clear();
+    assert!(s.peek(a).is_none() && s.find_by_topic("a").is_none() && !s.value_allocator.is_used(a), "[C13] clear() drops every binding");
+    let q: u16 = kani::any();
+    assert!(s.peek(q).is_none(), "[C13] nothing resolves after clear()");
+    core::mem::forget(s);
+}
